@@ -1114,3 +1114,42 @@ Proof.
   etransitivity; [exact (piece_final O _ req')|].
   rewrite <- !app_assoc. reflexivity.
 Qed.
+
+(* ------------------------------------------------------------------ schema_definitions_to_code *)
+
+Lemma defs_loop O n (F : pyval -> pyval -> res pyval) :
+  (forall x s_code, F x s_code =
+     (p4 <- py_unpack2 x ;; (t6 <- schema_to_struct_code_body O (convert_to_field_code O (2 * n + 1)) (pair_fst p4) (pair_snd p4) (PList []) ;;
+                             t7 <- py_list_append s_code t6 ;; let v_code_8 := t7 in (Ok v_code_8)))) ->
+  forall kv cs, mapO (def_of O n) kv = Some cs -> forall tss, all_class_toks cs = Some tss -> forall acc,
+  for_state (map mk kv) F (PList (map PStr acc)) = Ok (PList (map PStr (acc ++ map (rt O) tss))).
+Proof.
+  intros HF. induction kv as [|[a b] kv IH]; intros cs H tss Ht acc.
+  - injection H as <-. injection Ht as <-. cbn [map for_state]. rewrite app_nil_r. reflexivity.
+  - cbn [mapO] in H. unfold def_of in H at 1. cbn [fst snd] in H. destruct a; try discriminate.
+    destruct (class_of O n s b) as [c|] eqn:Ec; [|discriminate].
+    destruct (mapO (def_of O n) kv) as [cs'|]; [|discriminate]. injection H as <-.
+    cbn [all_class_toks] in Ht. destruct (class_toks c) as [t|] eqn:Etc; [|discriminate].
+    destruct (all_class_toks cs') as [ts|] eqn:Ets; [|discriminate]. injection Ht as <-.
+    cbn [map for_state]. rewrite HF. unfold mk at 1. cbn [py_unpack2 bind pair_fst pair_snd fst snd].
+    pose proof (schema_to_struct_code_bridge O n s b c t Ec Etc) as Hb. unfold schema_to_struct_code in Hb.
+    rewrite Hb. cbn [bind py_list_append].
+    change (map PStr acc ++ [PStr (rt O t)])%list with (map PStr acc ++ map PStr [rt O t])%list. rewrite <- map_app.
+    etransitivity; [exact (IH cs' eq_refl ts Ets (acc ++ [rt O t])%list) |].
+    rewrite <- app_assoc. reflexivity.
+Qed.
+
+(* schema_definitions_to_code emits one class per definition, in the document's order (none is pruned), joined by
+   the model's separator *)
+Theorem schema_definitions_to_code_bridge O n defs cs toks :
+  classes_of O n defs = Some cs -> defs_toks joiner_v1 cs = Some toks ->
+  schema_definitions_to_code O (2 * n + 1) defs (PList []) = Ok (PStr (rt O toks)).
+Proof.
+  intros H Ht. destruct defs; try discriminate. cbn [classes_of] in H.
+  unfold defs_toks, joiner_v1 in Ht. destruct (all_class_toks cs) as [tss|] eqn:Ea; [|discriminate]. injection Ht as <-.
+  unfold schema_definitions_to_code, schema_definitions_to_code_body.
+  eapply bind_step; [exact (dict_items_mk kv)|]. cbv beta zeta.
+  eapply bind_step.
+  { cbn [py_for_state]. exact (defs_loop O n _ (fun x s => eq_refl) kv cs H tss Ea []). }
+  cbv beta zeta. cbn [app]. rewrite join_map, rt_join, rt_raw1. reflexivity.
+Qed.
